@@ -1,6 +1,7 @@
 (* C10 — the node id is keccak256 of the record's public key (uncompressed form) and nothing else. *)
 Require Import Enr.Bytes Enr.Consts Enr.Rlp Enr.SortedMap Enr.Keccak Enr.Record Enr.Update.
 Require Import Enr.Spec.
+Require Import EnrProofs.KeccakLemmas.
 Require Import EnrProofs.Thm_Small EnrProofs.Thm_Sites.
 Require Import EnrProofs.Thm_Decode EnrProofs.Thm_Update EnrProofs.Thm_Valid.
 Open Scope N_scope.
@@ -87,3 +88,11 @@ Print Assumptions keccak256_vectors.
 Theorem node_id_is_32_bytes : forall pk, lenN (node_id_of pk) = 32.
 Proof. exact Thm_Sites.node_id_len. Qed.
 Print Assumptions node_id_is_32_bytes.
+
+(* the absorbing loop of the model's keccak256 ends because the input is exhausted, never because its fuel is:
+   any larger fuel gives the same digest (so the fuelled definition is the real sponge, not a truncation of it) *)
+Theorem keccak256_fuel_never_decides : forall m extra,
+  keccak256 m =
+  flat_map (le_bytes 8) (firstn 4 (absorb (S (Nat.div (length (kpad m)) rate) + extra)%nat (repeat 0 25%nat) (kpad m))).
+Proof. exact KeccakLemmas.keccak256_fuel_never_decides. Qed.
+Print Assumptions keccak256_fuel_never_decides.
